@@ -1032,6 +1032,13 @@ theorem runSegs_totals {τ : Type} (N : Normaliser τ) (T0 : τ) (segs : List Se
       · refine ih _ prev true ?_ hrecs ?_ (nodupKeys_restore _) (fun _ => Or.inr rfl) hrf'
         · simp only [← hr]; exact hin
         · simp only [← hr]; exact ht
+    | treeReset =>
+      simp only [RestartsFresh] at hrf
+      simp only [runSegs, recsOf, freshAfter] at hrecs ⊢
+      exact ih { s with tree := T0 } prev f hin hrecs ht hn
+        (fun h => by rcases hr h with e | e
+                     · exact Or.inl e
+                     · exact Or.inr e) hrf
 
 /-! ### the invariant `count = Σ status` along whole runs (restarts included) -/
 
@@ -1164,6 +1171,9 @@ theorem runSegs_aggOk {τ : Type} (N : Normaliser τ) (T0 : τ) (segs : List Seg
     | restart =>
       simp only [runSegs]
       exact ih _ hf hf
+    | treeReset =>
+      simp only [runSegs]
+      exact ih { s with tree := T0 } h hf
 
 /-- restart-free runs through `St` are `runBatches` on (tree, aggregation) -/
 theorem runSegs_batches {τ : Type} (N : Normaliser τ) (T0 : τ) (bs : List (List Rec)) (s : St τ) :
@@ -1424,6 +1434,9 @@ theorem runSegs_nodup {τ : Type} (N : Normaliser τ) (T0 : τ) (segs : List Seg
     | restart =>
       simp only [runSegs]
       exact ih _ (nodupKeys_restore _)
+    | treeReset =>
+      simp only [runSegs]
+      exact ih { s with tree := T0 } h
 
 /-- Which flushes fail to persist does not influence the tree or the in-memory aggregation (restart-free runs). -/
 theorem runSegs_clearFaults {τ : Type} (N : Normaliser τ) (T0 : τ) (segs : List Seg) (s s' : St τ)
@@ -1445,6 +1458,7 @@ theorem runSegs_clearFaults {τ : Type} (N : Normaliser τ) (T0 : τ) (segs : Li
       · rw [stepNoDump_tree, stepS_tree, stepS_tree, ht, ha]
       · rw [stepNoDump_agg, stepS_agg, stepS_agg, ht, ha]
     | restart => simp [noRestart] at hn
+    | treeReset => simp [noRestart] at hn
 
 theorem clearFaults_segOf (fs : List (List Rec × Bool)) :
     clearFaults (fs.map segOf) = (fs.map Prod.fst).map Seg.batch := by
@@ -1486,6 +1500,7 @@ theorem runSegs_noRestart_file {τ : Type} (N : Normaliser τ) (T0 : τ) (segs :
       unfold stepNoDump
       simp only [he, if_true]; exact hf hf'.1
     | restart => simp [noRestart] at hn
+    | treeReset => simp [noRestart] at hn
 
 
 
@@ -1505,5 +1520,6 @@ theorem restartsFresh_of_noRestart (segs : List Seg) (f : Bool) (hn : noRestart 
     | batch rs => simp only [RestartsFresh]; exact ih _ (by simpa [noRestart] using hn)
     | batchNoDump rs => simp only [RestartsFresh]; exact ih _ (by simpa [noRestart] using hn)
     | restart => simp [noRestart] at hn
+    | treeReset => simp [noRestart] at hn
 
 end LunarVerif.C15
